@@ -40,6 +40,23 @@ Verdict run_case(Choices& c, CaseLog& log)
         return gv;
     GenOptions opt;
     SimSpec spec = gen_spec(c, log, *src.fix, opt);
+    // fault class: one primary starts outside the world; it cannot be
+    // initialised, is killed by the tracking cut without a step, and its
+    // energy (+ 2mc^2 for a positron) must appear as deposited - exactly
+    // once, whatever the slot held before
+    if (!spec.events.empty() && c.boolean(0.12))
+    {
+        size_t ev = c.index(spec.events.size());
+        size_t pi = c.index(spec.events[ev].size());
+        int ax = int(c.int_in(0, 2));
+        bool neg = c.boolean();
+        GeoFixture const& fx = *src.fix;
+        spec.events[ev][pi].pos[ax] = neg ? double(fx.lo[ax]) - 0.5 * fx.scale
+                                          : double(fx.hi[ax]) + 0.5 * fx.scale;
+        log.mix(int(ev * 16 + pi));
+        log.mix(ax * 2 + int(neg));
+        log.label("primary-outside-world");
+    }
     describe(log, spec);
     if (spec.events.empty())
         return Verdict::trivial;
